@@ -3,6 +3,8 @@ package checks
 import (
 	"encoding/json"
 	"fmt"
+	"os"
+	"path/filepath"
 
 	"pgregory.net/rapid"
 
@@ -21,6 +23,13 @@ func drawSchemas(c *core.Ctx, prof *schema.Profile, prefix string, n, salt int) 
 		id := fmt.Sprintf("%s%04d", prefix, i)
 		g := rapid.Custom(func(t *rapid.T) *schema.Schema { return schema.Generate(t, prof, id) })
 		out = append(out, g.Example(c.SubSeed(salt*100000+i)))
+	}
+	if dir := os.Getenv("VERIF_DUMP_SCHEMAS"); dir != "" {
+		_ = os.MkdirAll(dir, 0o755)
+		for _, s := range out {
+			b, _ := json.Marshal(s)
+			_ = os.WriteFile(filepath.Join(dir, s.ID+".json"), b, 0o644)
+		}
 	}
 	return out
 }
@@ -52,6 +61,12 @@ func runC04(c *core.Ctx) error {
 		schemas := drawSchemas(c, prof, "k", per, b)
 		for _, s := range schemas {
 			countAvoided(c, s, avoid)
+			if hasTag(s, "companion_package") {
+				c.Ev.Class("schema:companion_package", 1)
+			}
+			if hasTag(s, "second_file") {
+				c.Ev.Class("schema:second_file", 1)
+			}
 		}
 		spec := &batchSpec{Name: fmt.Sprintf("c04-%d", b), Variant: "both", Schemas: schemas, Checks: []string{"c04"}, Cases: cases}
 		out, err := runBatch(c, spec)
